@@ -344,11 +344,16 @@ def runCase (c : CaseData) (st : Stats) : IO Stats := do
     | f :: _ =>
       if (← IO.getEnv "C02_DEBUG").isSome then
         for (n, v) in (r.dump.toArray.qsort (fun a b => a.1 < b.1)).toList do IO.eprintln s!"  {n} = {v}"
-      let what := if r.fails.all (fun x => r.firstSetLine == 0 || x.line < r.firstSetLine) then "check_precedes_first_set"
+      -- pins x_rrd* carry the read data of a memory read at a defined address (harness extra 64): with defined stimuli such a read returns
+      -- the stored word exactly, so a mismatch there cannot be the X-pessimism of CASE / numeric_std even when the reference run holds
+      -- undefined values (the partly defined power-on content)
+      let exactFail := if (hd.splitOn "undef=0").length > 1 then r.fails.find? (fun x => x.sig.startsWith "x_rrd") else none
+      let what := if exactFail.isSome then "check_mismatch_memory_read"
+        else if r.fails.all (fun x => r.firstSetLine == 0 || x.line < r.firstSetLine) then "check_precedes_first_set"
         else if r.fails.any (·.hard) then "check_mismatch_value"
         else if r.fails.any (fun x => x.got.contains 'U') then "check_mismatch_uninitialised"
         else "check_mismatch_metavalue"
-      let f := if what == "check_mismatch_value" then (r.fails.find? (·.hard)).getD f else f
+      let f := if what == "check_mismatch_value" then (r.fails.find? (·.hard)).getD f else exactFail.getD f
       return ← pfail st what s!"vector_line={f.line} signal={f.sig} time_fs={f.timeFs} failing_checks={r.fails.length} of {r.checks} vhdl_has_metavalue={if r.metaPresent then 1 else 0} expected={f.expected} got={f.got}"
 
 def stripPayload (l : String) : String := if l.startsWith "| " then (l.drop 2).toString else if l == "|" then "" else l
